@@ -1,7 +1,8 @@
 """C04 -- every submitted job resolves exactly once, with its own outcome."""
-from checks import poolcommon, poolreal
+from checks import poolparts, poolcommon, poolreal
 
 
 def main(ctx):
     poolcommon.run(ctx, 'C04')
+    poolparts.run(ctx, 'C04')         # multi-part jobs under supervision
     poolreal.run(ctx, 'C04')
